@@ -274,6 +274,16 @@ def _density_graphs(ctx):
     eq(ctx, "R5", "n * d^3 = 1e24", n * d ** 3, sp.Integer(10) ** 24, fsite(ctx, "density.interatomic_distance"))
     eq(ctx, "R5", "an isotope has the number density of its element (same inter-atomic spacing)",
        I.call(I.global_name("density", "number_density"), [A["isotope"]], {}), rho * NA / mFe, fsite(ctx, "density.number_density"))
+    # the documented customisation: after the table data change, the derived quantities follow
+    Co = w.element("Co")
+    w.set(Co, _density=sp.Symbol("rho_a", positive=True), _mass=sp.Symbol("m_a", positive=True))
+    n_before = I.getattr(Co, "number_density")
+    d_before = I.getattr(Co, "interatomic_distance")
+    w.set(Co, _density=sp.Symbol("rho_b", positive=True))
+    eq(ctx, "R5", "number density follows a change of the element's density (no stale value)", I.getattr(Co, "number_density"),
+       sp.Symbol("rho_b", positive=True) * NA / sp.Symbol("m_a", positive=True), fsite(ctx, "density.number_density"))
+    eq(ctx, "R5", "n * d^3 = 1e24 still holds after the change", I.getattr(Co, "number_density") * I.getattr(Co, "interatomic_distance") ** 3,
+       sp.Integer(10) ** 24, fsite(ctx, "density.interatomic_distance"))
     # unknown element density
     U = w.element("U")
     w.set(U, _density=None, _mass=mass_sym("U"))
@@ -287,4 +297,4 @@ def _density_graphs(ctx):
         rr = raises(lambda: I.getattr(U, fn))
         ctx.check(rr is None and I.getattr(U, fn) is None, "R5", f"unknown element density: {fn} is None", f"raises {rr}",
                   fsite(ctx, f"density.{fn}"))
-    ctx.floor("R5", 11)
+    ctx.floor("R5", 13)
